@@ -1,7 +1,7 @@
 (** C18 — correctness of the label-free compilation [comp_*] (Model/RevmComp.v) with
     respect to the matching semantics of Model/RevmTree.v, by fragment invariants. *)
 From Coq Require Import List NArith Bool Arith Lia.
-From Acg Require Import Base.Outcome Model.RevmTree Model.Revm Model.RevmVM Model.RevmComp
+From Acg Require Import Base.Outcome Model.RevmTree Model.Revm Model.RevmVM Model.RevmComp Model.RevmShape
   Proofs.RevmFrag.
 Import ListNotations.
 
@@ -10,27 +10,6 @@ Scheme value_mind := Induction for value Sort Prop
   with concat_mind := Induction for concat Sort Prop
   with union_mind := Induction for union Sort Prop.
 Combined Scheme tree_mutind from value_mind, term_mind, concat_mind, union_mind.
-
-(** * well-formed sub-trees: no start anchor, quantifier bounds ordered
-      (the parser's [Quantifier] precondition) *)
-Definition okq (q : quant) : bool :=
-  match q_max q with Some mx => Nat.leb (q_min q) mx | None => true end.
-
-Fixpoint okv (v : value) : bool :=
-  match v with
-  | VSym SStart => false
-  | VSym _ | VChar _ | VSet _ _ => true
-  | VGroup u => oku u
-  end
-with okt (t : term) : bool :=
-  match t with
-  | Term v None => okv v
-  | Term v (Some q) => okv v && okq q
-  end
-with okc (c : concat) : bool :=
-  match c with CNil => true | CCons t c' => okt t && okc c' end
-with oku (u : union) : bool :=
-  match u with UNil => true | UCons c u' => okc c && oku u' end.
 
 (** * lengths *)
 Section QuantLen.
